@@ -3,6 +3,7 @@
 package c19
 
 import (
+	"encoding/json"
 	"fmt"
 	"strings"
 	"testing"
@@ -27,6 +28,7 @@ type alphabetA struct {
 	annotations []string
 	never       []string
 	always      []string
+	podLabels   []string
 	policies    []string
 	apis        []string
 }
@@ -37,8 +39,9 @@ func alphabetForA(thorough bool) alphabetA {
 		namespaces:  [][2]string{{"c19-app", "pod"}, {"default", "pod"}, {"kube-system", "pod"}, {"kube-system", "request"}},
 		labels:      []string{absent, "true", "false", "maybe"},
 		annotations: []string{absent, "true", "false", "maybe"},
-		never:       []string{"selNoMatch", "selMatch"},
-		always:      []string{"selNoMatch", "selMatch"},
+		never:       []string{"matchLabels", "doesNotExist", "notIn"},
+		always:      []string{"matchLabels", "doesNotExist", "notIn"},
+		podLabels:   []string{"app", "app+never", "app+always", "app+never+always", "nil", "empty"},
 		policies:    []string{"enabled", "disabled", "off"},
 		apis:        []string{"v1"},
 	}
@@ -47,8 +50,8 @@ func alphabetForA(thorough bool) alphabetA {
 			[2]string{"local-path-storage", "pod"}, [2]string{"c19-app", "request"}, [2]string{"kube-public", "request"})
 		a.labels = append(a.labels, "", "True", "yes")
 		a.annotations = append(a.annotations, "", "True", "yes")
-		a.never = append(a.never, "selUnset", "selMatchExpr")
-		a.always = append(a.always, "selUnset", "selMatchExpr")
+		a.never = append(a.never, "unset", "exists")
+		a.always = append(a.always, "unset", "exists")
 		a.policies = append(a.policies, "", "always")
 		a.apis = append(a.apis, "v1beta1")
 	}
@@ -56,51 +59,56 @@ func alphabetForA(thorough bool) alphabetA {
 }
 
 func (a alphabetA) dims() []int {
-	return []int{len(a.hostNet), len(a.namespaces), len(a.labels), len(a.annotations), len(a.never), len(a.always), len(a.policies), len(a.apis)}
+	return []int{len(a.hostNet), len(a.namespaces), len(a.labels), len(a.annotations), len(a.never), len(a.always), len(a.podLabels), len(a.policies), len(a.apis)}
 }
 
 func (a alphabetA) cell(idx []int) cell {
 	return cell{
 		HostNetwork: a.hostNet[idx[0]], Namespace: a.namespaces[idx[1]][0], NsVia: a.namespaces[idx[1]][1],
 		Label: a.labels[idx[2]], Annotation: a.annotations[idx[3]], Never: a.never[idx[4]], Always: a.always[idx[5]],
-		Policy: a.policies[idx[6]], APIVersion: a.apis[idx[7]],
+		PodLabels: a.podLabels[idx[6]], Policy: a.policies[idx[7]], APIVersion: a.apis[idx[8]],
 	}
 }
 
-func selectorFor(kind, key string) []metav1.LabelSelector {
-	switch kind {
-	case "selNoMatch", "selMatch":
+func selectorFor(form, key string) []metav1.LabelSelector {
+	switch form {
+	case "matchLabels":
 		return []metav1.LabelSelector{{MatchLabels: map[string]string{key: "yes"}}}
-	case "selMatchExpr":
+	case "exists":
 		return []metav1.LabelSelector{{MatchExpressions: []metav1.LabelSelectorRequirement{{Key: key, Operator: metav1.LabelSelectorOpExists}}}}
+	case "doesNotExist":
+		return []metav1.LabelSelector{{MatchExpressions: []metav1.LabelSelectorRequirement{{Key: key, Operator: metav1.LabelSelectorOpDoesNotExist}}}}
+	case "notIn":
+		return []metav1.LabelSelector{{MatchExpressions: []metav1.LabelSelectorRequirement{{Key: key, Operator: metav1.LabelSelectorOpNotIn, Values: []string{"no", "off"}}}}}
 	}
-	return nil // selUnset
+	return nil // unset
 }
 
-// podFor builds the pod of a cell; selUnset still puts the label on the pod (no selector looks at it).
+// podFor builds the pod of a cell. podLabels=nil gives a pod without a label map (unless the inject
+// label itself is set), podLabels=empty an explicitly empty one.
 func podFor(c cell) *corev1.Pod {
 	p := &corev1.Pod{
 		TypeMeta:   metav1.TypeMeta{APIVersion: "v1", Kind: "Pod"},
-		ObjectMeta: metav1.ObjectMeta{Name: "c19", Labels: map[string]string{"app": "c19"}, Annotations: map[string]string{"c19.verif/note": "decision"}},
+		ObjectMeta: metav1.ObjectMeta{Name: "c19", Annotations: map[string]string{"c19.verif/note": "decision"}},
 		Spec: corev1.PodSpec{
 			HostNetwork: c.HostNetwork,
 			Containers:  []corev1.Container{{Name: "app", Image: "registry.example/app:1", Ports: []corev1.ContainerPort{{Name: "http", ContainerPort: 8080}}}},
 		},
 	}
+	if m, present := c.otherLabels(); present {
+		p.Labels = m
+	}
 	if c.NsVia == "pod" {
 		p.Namespace = c.Namespace
 	}
 	if c.Label != absent {
+		if p.Labels == nil {
+			p.Labels = map[string]string{}
+		}
 		p.Labels[injectKey] = c.Label
 	}
 	if c.Annotation != absent {
 		p.Annotations[injectKey] = c.Annotation
-	}
-	if c.Never != "selNoMatch" {
-		p.Labels[neverLabel] = "yes"
-	}
-	if c.Always != "selNoMatch" {
-		p.Labels[alwaysLabel] = "yes"
 	}
 	return p
 }
@@ -134,7 +142,17 @@ func (d *deciderA) observe(c cell) (direct bool, hook string, detail string) {
 	meta := *pod.ObjectMeta.DeepCopy()
 	meta.Namespace = c.Namespace
 	direct = inject.VerifInjectRequired(inject.IgnoredNamespaces.UnsortedList(), cfg, &pod.Spec, meta)
-	r, err := wh.admit(mustJSON(pod), c.Namespace, c.APIVersion)
+	podJSON := mustJSON(pod)
+	if pod.Labels != nil && len(pod.Labels) == 0 {
+		// omitempty drops an empty map; a client can very well send "labels": {}
+		var m map[string]any
+		if err := json.Unmarshal(podJSON, &m); err != nil {
+			d.t.Fatal(err)
+		}
+		m["metadata"].(map[string]any)["labels"] = map[string]any{}
+		podJSON = mustJSON(m)
+	}
+	r, err := wh.admit(podJSON, c.Namespace, c.APIVersion)
 	switch {
 	case err != nil:
 		return direct, "error", err.Error()
@@ -216,7 +234,7 @@ func (d *deciderA) check(res *engine.Result, c cell, verbose bool) {
 func TestC19a(t *testing.T) {
 	env := engine.GetEnv()
 	res := engine.NewResult("C19", "a-decision")
-	res.Rule = "every cell of hostNetwork x namespace x inject label x inject annotation x neverInjectSelector x alwaysInjectSelector x policy (x AdmissionReview version), each evaluated twice through injectRequired and through the real /inject handler with the shipped sidecar template; non-trivial = at least two stages of the cascade have opinions that differ, so the cell exercises the order"
+	res.Rule = "every cell of hostNetwork x namespace x inject label x inject annotation x neverInjectSelector form (matchLabels / Exists / DoesNotExist / NotIn / unset) x alwaysInjectSelector form x the pod's other labels (incl. no label map and an empty one) x policy (x AdmissionReview version), each evaluated twice through injectRequired and through the real /inject handler with the shipped sidecar template; non-trivial = at least two stages of the cascade have opinions that differ, so the cell exercises the order"
 	defer res.Write(t, env)
 	d := &deciderA{t: t, s: loadShipped(t), webhooks: map[string]*webhook{}, configs: map[string]*inject.Config{}}
 	setNative(false)
@@ -226,7 +244,7 @@ func TestC19a(t *testing.T) {
 		if err := engine.ReadReplay(env.Replay, &c); err != nil {
 			t.Fatal(err)
 		}
-		d.check(res, c, true)
+		d.check(res, c.normalise(), true)
 		return
 	}
 	a := alphabetForA(env.Thorough())
@@ -238,7 +256,7 @@ func TestC19a(t *testing.T) {
 	res.Bounds["cells_total"] = total
 	res.Bounds["alphabet"] = map[string]any{
 		"hostNetwork": a.hostNet, "namespace(via)": a.namespaces, "label": a.labels, "annotation": a.annotations,
-		"neverInjectSelector": a.never, "alwaysInjectSelector": a.always, "policy": a.policies, "admissionReview": a.apis,
+		"neverInjectSelector": a.never, "alwaysInjectSelector": a.always, "podLabels": a.podLabels, "policy": a.policies, "admissionReview": a.apis,
 	}
 	res.Bounds["template_sha256"] = d.s.digests["sidecar"]
 	engine.Product(dims, func(ord int64, idx []int) bool {
